@@ -8,6 +8,7 @@ import FtProofs.Lemmas.TrafficBuffet
 import FtProofs.Lemmas.TrafficSched
 import FtProofs.Lemmas.TrafficCache
 import FtProofs.Lemmas.TrafficCacheBounds
+import FtProofs.Lemmas.TrafficSchedOrd
 set_option linter.unusedSectionVars false
 set_option linter.unusedSimpArgs false
 set_option linter.unusedVariables false
@@ -508,6 +509,34 @@ example :
     readsOf 0 xs = 3 ∧ firstReadsOf 0 [] xs = 2 ∧
     getAt (xs.foldl (cstep 32 (some 0)) {}).reads 0 = 96 ∧
     getAt (xs.foldl (cstep 32 (some 64)) {}).reads 0 = 64 := by decide
+
+/-- The cache theorem stated on the bindings' traces: if every binding's next-use trace is
+    stamp-sorted, carries correct next-use stamps (`accsOf_nextOk`), has no two different lines at one
+    stamp and no staging access, then `cacheTraffic` (all bindings, any capacity and line size)
+    raises nothing and charges what the furthest-next-use-with-bypass reference charges on the
+    consumption sequence.  PARTIAL with respect to the property's quantifier: stamp ties between
+    different lines and pinned staging lines are excluded (see `cache_eq_reference_partial`). -/
+theorem cache_eq_reference_traces_partial (L ls : Nat) (cap : Option Nat) (traces : List (List Acc))
+    (h1 : ∀ t ∈ traces, nextOkB t = true) (h2 : ∀ t ∈ traces, TraceOk L t)
+    (h3 : ∀ t ∈ traces, ∀ a ∈ t, a.staging = false) :
+    (cacheRun L ls cap traces).failed = none ∧
+    (cacheRun L ls cap traces).reads = (refCache ls cap {} (schedule L traces)).reads ∧
+    (cacheRun L ls cap traces).writes = (refCache ls cap {} (schedule L traces)).writes := by
+  have := cache_eq_reference_partial ls cap (schedule L traces) (schedule_nextOk L traces h1)
+    (schedule_ord L traces h2) (by
+      intro x hx
+      obtain ⟨t, ht, hm⟩ := schedule_mem L traces hx
+      exact h3 t ht _ hm)
+  exact ⟨this.1, this.2.1, this.2.2.1⟩
+
+example :
+    let t0 : List Acc := accsOf [true] [true] 1 none [⟨[0], [3], 3, false⟩, ⟨[1], [3], 3, false⟩, ⟨[2], [4], 4, false⟩]
+    let t1 : List Acc := accsOf [false, true] [false, true] 1 none
+      [⟨[0, 0], [3, 1], 1, false⟩, ⟨[0, 1], [3, 2], 2, true⟩, ⟨[2, 0], [4, 1], 1, false⟩]
+    (∀ t ∈ [t0, t1], nextOkB t = true ∧ stampsSortedB (t.map (·.stamp)) = true ∧ traceTieFreeB t = true
+        ∧ t.all (fun a => decide (a.stamp.length ≤ 2) && !a.staging) = true) ∧
+    getAt (cacheRun 2 32 (some 32) [t0, t1]).reads 0 = 64 ∧
+    getAt (cacheRun 2 32 (some 32) [t0, t1]).reads 1 = 64 := by decide
 
 end Traffic
 end Ft
